@@ -62,7 +62,11 @@ func symxC17() {
 	}
 	// 1. a retained publish from tenant m
 	symxTick()
-	am.feed(symxPublishBytes(topic, []byte("v"), 0, 0, true))
+	pb := symxPublishBytes(topic, []byte("v"), 0, 0, true)
+	if rt.Bool("dup_flag") {
+		pb[0] |= 0x08 // a client may set DUP on anything it sends
+	}
+	am.feed(pb)
 	rt.Quiesce()
 	expect(cm, wantM, "C17.same_tenant_receives_iff_filter_matches")
 	expect(bn, 0, "C17.other_tenant_never_receives_a_publish")
